@@ -11,6 +11,7 @@ EXPLANATION = (
     "(3) EVALGUARD — the repository's own pairing idiom: runtime type errors are raised only by the pre-pass ensure_runtime_expression_compatible, so "
     "every evaluation of a user expression in executor::* must be preceded by it (same body, enclosing closure, guarding loop, listed wrapper, or "
     "every caller). Errors the evaluator turns into null by design are not decided."
+    " C22.6: every non-null Ok result of the percentile aggregates is dominated by the Ok arm of resolve_percentile (the range check of the percentile argument)."
 )
 
 QERR = ("nervusdb_query::error::Error", "nervusdb_storage::error::Error")
@@ -29,6 +30,7 @@ def run(ctx):
     ctx.rule("C22.1", "adaptors over Result<Row> streams keep Err items")
     ctx.rule("C22.2", "no query/storage Result is discarded in the executor / query API")
     ctx.rule("C22.3", "every row-level expression evaluation is preceded by the runtime-compatibility pre-pass")
+    percentile_rule(ctx)
     ctx.rule("C22.4", "an operator that runs the pre-pass runs it on every path that can yield rows (only error exits bypass it)")
 
     sites, its = rowflow.adaptor_sites(F, EXEC)
@@ -118,3 +120,39 @@ def run(ctx):
                    "this operator can hand rows on without running ensure_runtime_expression_compatible on its expressions (a fast path / early "
                    "return around the pre-pass): a runtime type error in them is not reported for the inputs that take that path", b.file,
                    sample={"operator": b.id, "bypassing_return_blocks": rets})
+
+
+PCT_FNS = ("nervusdb_query::executor::projection_sort::evaluate_percentile_cont", "nervusdb_query::executor::projection_sort::evaluate_percentile_disc")
+RESOLVE_PCT = "nervusdb_query::executor::projection_sort::resolve_percentile"
+
+
+def percentile_rule(ctx, rid="C22.6"):
+    """a percentile aggregate returns a value only after the percentile argument passed its range check"""
+    from .. import paths
+    ctx.rule(rid, "every non-null Ok result of evaluate_percentile_cont / evaluate_percentile_disc is dominated by the Ok arm of resolve_percentile — the only "
+             "place the percentile argument is range-checked (NumberOutOfRange); a shortcut for special groups must not bypass it")
+    n = 0
+    for fn in PCT_FNS:
+        b = ctx.body(fn)
+        short = fn.split("::")[-1]
+        rps = [c for c in b.calls() if c.name == RESOLVE_PCT]
+        oks = [paths.ok_arm(b, c) for c in rps]
+        ctx.oblige(bool(rps) and all(o is not None for o in oks), rid, "%s:%s:no-range-check" % (rid, short), "%s does not call resolve_percentile" % short, b.file)
+        for bi, blk in enumerate(b.blocks):
+            if b.is_cleanup(bi):
+                continue
+            for st in blk["s"]:
+                if not (st[0] == "a" and st[1][0] == 0 and not st[1][1] and st[2][0] == "agg" and st[2][2] == "core::result::Result" and st[2][3] == "Ok"):
+                    continue
+                pl = op_local(st[2][4][0]) if st[2][4] else None
+                o = b.origin(pl) if pl is not None else None
+                is_null = bool(o and o[0] == "agg" and o[1][2].endswith("core_types::Value") and o[1][3] == "Null")
+                if is_null:
+                    continue
+                n += 1
+                ok = any(x is not None and b.dominates(x, bi) for x in oks)
+                ctx.instance(rid, "%s: value result at line %d after the range check=%s" % (short, b.line_of_block(bi), ok))
+                ctx.oblige(ok, rid, "%s:%s:value-before-range-check#%d" % (rid, short, n),
+                           "%s returns a value on a path that never validated the percentile argument: an out-of-range percentile yields a result instead of "
+                           "the NumberOutOfRange runtime error" % short, "%s:%d" % (b.file, b.line_of_block(bi)))
+    ctx.floor(rid, "value results of the percentile aggregates", n, 2)
